@@ -40,7 +40,7 @@ def uid(n):
 
 
 IDENT_IDS = ["identity--" + uid(i) for i in range(1, 5)]
-MARKING_IDS = ["marking-definition--" + uid(0xa0 + i) for i in range(1, 6)]
+MARKING_IDS = ["marking-definition--" + uid(0xa0 + i) for i in range(1, 5)] + ["marking-definition--" + uid(0xa5).upper()]    # (one with upper-case hex digits)
 LANGS = ["en", "fr", "de-CH"]
 OBJ_REFS = ["malware--" + uid(0x31), "indicator--" + uid(0x32), "identity--" + uid(1), "campaign--" + uid(0x33)]
 KCP = [{"kill_chain_name": "lockheed-martin-cyber-kill-chain", "phase_name": "delivery"},
